@@ -6,6 +6,7 @@ import XsdataModel.Codegen.Resolver
 import XsdataModel.Codegen.Types
 import XsdataModel.Codegen.SeqNum
 import XsdataModel.Codegen.Cli
+import XsdataModel.Codegen.Pipeline
 open Lean Proto Py Xs.Codegen
 
 namespace OpsCodegen
@@ -128,6 +129,26 @@ def run (op : String) (a : Json) : Option (Except String Json) :=
       pure <| match r with
         | .ok x => ok (jAssign x)
         | .error e => pkgErr e
+  | "gen.layout" | "gen.e2e" => some do
+      let cs ← (← getArr a "classes").mapM classInfo
+      let vo ← getStrList a "vorder"
+      let package ← getStr a "package"
+      let style ← getStr a "style"
+      let nspkg ← (← getArr a "nspkg").mapM (fun p => do
+        match p with
+        | .arr #[k, v] => pure (← optStr k, ← asStr v)
+        | _ => .error "expected [ns, package]")
+      let nsPackage : Option Str → Str := fun ns => ((nspkg.find? (·.1 == ns)).map (·.2)).getD []
+      let r := if String.ofList style == "clusters" then layoutClusters package cs vo
+               else layoutNsClusters nsPackage cs vo
+      pure <| match r with
+        | .ok (x, ms) => ok (jObj [("assign", jAssign x),
+            ("modules", jList (fun m => Json.arr #[jStr m.module, jList jStr m.classes, jList jStr m.imports]) ms)])
+        | .error (.pkg e) => pkgErr e
+        | .error (.res .duplicate) => err "CodegenError:duplicate"
+        | .error (.res .circular) => err "CircularDependencyError"
+        | .error (.res .unresolved) => err "CodegenError:unresolved"
+        | .error .unassigned => err "CodegenError:unassigned"
   | "gen.resolver" => some do
       let reg ← strPairs (a.getObjValD "registry")
       let cs ← (← getArr a "classes").mapM (fun j => do
